@@ -247,6 +247,8 @@ def confirmed_cf(case, nat):
             return nat[f + "_before"] != nat[f + "_after"]
     if "compacted log holds" in what:
         return nat["records_after"] != 1 + nat["live"]
+    if "stray file" in what or "temporary event log" in what:
+        return nat.get("dir_entries") != ["folder.events"]
     return False
 
 
